@@ -516,7 +516,9 @@ func (r *renderer) opTok(op string) string {
 		if r.l.pick(r.l.CmpWords) {
 			return r.l.osp() + cmpWords[op] + r.l.osp()
 		}
-		return " " + op + " "
+		// the comparison marks need no blanks: none of their characters can be part of a name
+		// (a / directly followed by = ends the name before it)
+		return r.l.osp() + op + r.l.osp()
 	}
 	// arithmetic operators always need blanks on both sides
 	return r.l.sp() + op + r.l.sp()
